@@ -42,16 +42,26 @@ def resolve_target(target):
     return (obj if ok else None), mod, mod.__file__, parts
 
 
-def snapshot(v):
+def snapshot(v, in_list=False):
+    """entry-state copy for old_<param>: containers are copied, objects held *inside lists* keep their identity
+    (so that `is` in contracts talks about the same elements); objects held in fields are copied recursively"""
     if isinstance(v, SymList):
         return SymList(v.t, v.elem)
     if isinstance(v, list):
-        return [snapshot(x) for x in v]
+        return [snapshot(x, True) for x in v]
+    if isinstance(v, models.ADict):
+        d = models.ADict()
+        for k, x in v.entries:
+            d.entries.append([k, snapshot(x, in_list)])
+            if not isinstance(k, (SV, SOpt)):
+                dict.__setitem__(d, k, d.entries[-1][1])
+        return d
     if isinstance(v, dict):
-        return {k: snapshot(x) for k, x in v.items()}
+        return {k: snapshot(x, in_list) for k, x in v.items()}
     if isinstance(v, Obj):
-        o = Obj(v.cls, {k: snapshot(x) for k, x in v.fields.items()}, tag=(v.tag or '') + '@old')
-        return o
+        if in_list:
+            return v
+        return Obj(v.cls, {k: snapshot(x) for k, x in v.fields.items()}, tag=(v.tag or '') + '@old')
     return v
 
 
@@ -121,6 +131,8 @@ def _run_path(unit, decisions, contracts, ctx):
     if unit.env and clo.env is not None:
         for k in unit.env:
             env_all.setdefault(k, clo.env.locals[k])
+    if unit.setup_params is not None:
+        unit.setup_params(ip, env_all)
     if unit.requires is not None:
         ctx.assume(api.call_spec(ip, unit.requires, env_all))
     if not ctx.feasible(z3.BoolVal(True)):
